@@ -301,6 +301,33 @@ def judge(case):
             third = makers[case['first']]('C')
             if third.contents.lines:
                 bad('contents-shared-between-objects', f'third renders {str(third)!r}')
+        elif kind == 'helpers':
+            from dznpy.scoping import NamespaceIds  # pylint: disable=import-outside-toplevel
+            ids, root, name, dflt = case['ids'], case['root'], case['name'], case['default']
+            fq = G.fqn_t(list(ids), root)
+            want_fq = (['::'] if root and ids else []) + [t for i, x in enumerate(ids) for t in ((['::'] if i else []) + [x])]
+            if tokens(str(fq)) != want_fq:
+                bad('fqn_t', f'{str(fq)!r}')
+            for alt in ('.'.join(ids), '::'.join(ids), NamespaceIds(list(ids))):
+                if ids and tokens(str(G.fqn_t(alt, root))) != want_fq:
+                    bad('fqn_t-notation', f'{alt!r} -> {str(G.fqn_t(alt, root))!r}')
+            for empty in (None, '', []):
+                if str(G.fqn_t(empty, root)) != '':
+                    bad('fqn_t-empty', repr(empty))
+            for fn, txt in ((G.void_t, 'void'), (G.int_t, 'int'), (G.float_t, 'float'), (G.double_t, 'double')):
+                if str(fn()) != txt:
+                    bad('basic-type-helper', f'{txt}: {str(fn())!r}')
+            if ids:
+                for fn, post in ((G.decl_var_t, []), (G.decl_var_ref_t, ['&']), (G.decl_var_ptr_t, ['*'])):
+                    if tokens(str(fn(fq, name))) != want_fq + post + [name, ';']:
+                        bad('decl_var-helper', f'{fn.__name__}: {str(fn(fq, name))!r}')
+                for fn, pre, post in ((G.param_t, [], []), (G.const_param_ref_t, ['const'], ['&']),
+                                      (G.const_param_ptr_t, ['const'], ['*'])):
+                    par = fn(fq, name, dflt) if dflt is not None else fn(fq, name)
+                    want_def = pre + want_fq + post + [name]
+                    want_decl = want_def + (['='] + tokens(dflt) if dflt else [])
+                    if tokens(par.as_def) != want_def or tokens(par.as_decl) != want_decl:
+                        bad('param-helper', f'{fn.__name__}: decl={par.as_decl!r} def={par.as_def!r}')
         elif kind == 'misc':
             from dznpy.scoping import NamespaceIds  # pylint: disable=import-outside-toplevel
             incs = list(case['includes'])
@@ -369,6 +396,11 @@ def other_cases():
             yield {'kind': 'section', 'spec': spec, 'contents': body}
     for incs in ([], ['string'], ['dzn/pump.hh', 'a/b.h', 'x']):
         yield {'kind': 'misc', 'includes': incs}
+    for ids in ([], ['T'], ['N', 'T'], ['a', 'b_1', 'C9']):
+        for root in (False, True):
+            for name in ('x', 'm_value'):
+                for dflt in (None, '', '0', '""', 'nullptr', '{}', '123u'):
+                    yield {'kind': 'helpers', 'ids': ids, 'root': root, 'name': name, 'default': dflt}
     for first, second, how in itertools.product(('struct', 'class', 'namespace'), ('struct', 'class', 'namespace'),
                                                 ('append', 'iadd')):
         yield {'kind': 'sharing', 'first': first, 'second': second, 'how': how}
